@@ -249,7 +249,7 @@ func runC11(c *Ctx) {
 	{
 		trimOf := func(fn *ssa.Function) string {
 			out := ""
-			eachInstr(fn, func(_ *ssa.BasicBlock, in ssa.Instruction) {
+			eachInstrG(c.P, fn, func(_ *ssa.BasicBlock, in ssa.Instruction) {
 				if cl, ok := in.(*ssa.Call); ok && cl.Call.StaticCallee() != nil {
 					n := calleeName(cl.Call.StaticCallee())
 					if strings.HasPrefix(n, "strings.Trim") {
@@ -445,8 +445,10 @@ func runC11(c *Ctx) {
 		for _, ef := range s.Effects {
 			if ef.Kind == "call" && ef.Call.Op == "invoke" && strings.HasSuffix(ef.Call.Aux, "RuleList).RetrieveRule") {
 				list, off := ef.Call.Args[0], ef.Call.Args[1]
-				okL := list.Op == "extract" && list.Args[0].Op == "lookup" && list.Args[0].Args[1].Op == "convert" && list.Args[0].Args[1].Args[0].key == u.mk("extract", "0", nil, un).key
-				okO := off.Op == "convert" && off.Args[0].key == u.mk("extract", "1", nil, un).key
+				// integer conversions between the packed halves and the map key / offset may sit on
+				// either side of the unpack helper
+				okL := list.Op == "extract" && list.Args[0].Op == "lookup" && stripConv(list.Args[0].Args[1]).key == u.mk("extract", "0", nil, un).key
+				okO := stripConv(off).key == u.mk("extract", "1", nil, un).key
 				if okL && okO {
 					bad = ""
 				} else {
@@ -466,8 +468,9 @@ func runC11(c *Ctx) {
 			v := r.Vals[1]
 			if v.Op == "call" && v.Aux == calleeName(pack) {
 				a0, a1 := v.Args[0], v.Args[1]
-				okID := a0.Op == "convert" && a0.Args[0].Op == "invoke" && strings.HasSuffix(a0.Args[0].Aux, "GetFilterListID")
-				okOff := a1.Op == "convert" && a1.Args[0].Op == "extract" && a1.Args[0].Aux == "1"
+				a0, a1 = stripConv(a0), stripConv(a1)
+				okID := a0.Op == "invoke" && strings.HasSuffix(a0.Aux, "GetFilterListID")
+				okOff := a1.Op == "extract" && a1.Aux == "1"
 				if okID && okOff {
 					bad = ""
 				} else {
@@ -528,4 +531,16 @@ func runC11(c *Ctx) {
 		}
 		c.Check(bad == "", "C11.R5", "RuleStorageScanner.Scan: tries every list until one yields; false only when none is left", ssScan.Pos(), "loop over the scanners; constant results under the documented conditions", bad)
 	}
+}
+
+// stripConv removes integer conversions around a value.
+func stripConv(e *E) *E {
+	for e != nil && e.Op == "convert" && len(e.Args) == 1 && isIntLike(e) && isIntLike(e.Args[0]) {
+		// the halves of a storage index are 32 bits wide: anything narrower loses information
+		if bt, ok := e.Typ.Underlying().(*types.Basic); ok && intWidth(bt) < 32 {
+			break
+		}
+		e = e.Args[0]
+	}
+	return e
 }
